@@ -17,6 +17,9 @@ TABLE = {m: 's_' + m for m in STR_METHODS + TIME_METHODS}
 for _m in ('contains', 'starts_with', 'ends_with', 'to_lowercase', 'to_uppercase', 'split', 'rsplit', 'len'):
     TABLE[_m] = ('s_' + _m, 'ref')     # std takes &self: the receiver stays usable afterwards
 TABLE['is_char_boundary'] = ('s_is_char_boundary', 'ref')
+TABLE['chars'] = ('s_chars', 'ref')      # not used by the code today: a changed wrapper that counts characters type-checks and then fails its contract
+TABLE['count'] = 's_count'
+TABLE['bytes'] = ('s_bytes', 'ref')
 TABLE['map_err'] = 's_map_err'
 TABLE['into_bytes'] = 's_into_bytes'
 TABLE['as_slice'] = ('s_as_slice', 'ref')
@@ -52,6 +55,11 @@ pub open spec fn strs_as_values(p: Seq<Seq<char>>, v: Seq<CelValue>) -> bool {
 #[verifier::external_body] pub fn s_rsplit(s: &String, d: &String) -> (r: Pieces) ensures r@ == str_rsplit(s@, d@) { unimplemented!() }
 #[verifier::external_body] pub fn s_map<F: Fn(&str) -> CelValue>(p: Pieces, f: F) -> (r: MappedPieces) ensures r@ == p@ { unimplemented!() }   // the closure is `|s| s.into()` (str -> CelValue::String)
 #[verifier::external_body] pub fn s_collect(p: MappedPieces) -> (r: Vec<CelValue>) ensures strs_as_values(p@, r@) { unimplemented!() }
+#[verifier::external_body] pub struct CharsIt { _p: u8 }
+impl CharsIt { pub uninterp spec fn n(&self) -> nat; }
+#[verifier::external_body] pub fn s_chars(s: &String) -> (r: CharsIt) ensures r.n() == s@.len() { unimplemented!() }      // one item per character
+#[verifier::external_body] pub fn s_bytes(s: &String) -> (r: CharsIt) ensures r.n() == utf8_len(s@) { unimplemented!() }  // one item per UTF-8 byte
+#[verifier::external_body] pub fn s_count(c: CharsIt) -> (r: usize) ensures r == c.n() { unimplemented!() }
 pub uninterp spec fn char_boundary(s: Seq<char>, at: usize) -> bool;       // `at` is 0, the byte length, or the first byte of a character
 pub uninterp spec fn str_split_at(s: Seq<char>, at: usize) -> (Seq<char>, Seq<char>);
 #[verifier::external_body] pub fn s_is_char_boundary(s: &String, at: usize) -> (r: bool) ensures r == char_boundary(s@, at) { unimplemented!() }
